@@ -132,11 +132,10 @@ Proof. vm_compute. reflexivity. Qed.
 (* Bounded version of nn_refines_map, which also carries nn_wf_preserved, nn_size_bound, iter_after_insert
    and iter_after_remove (DESIGN C18).  Full statement:
      forall t ops s0, 3 <= t -> wf_tree s0 = true -> agree t ops (nn_init s0) (init_sm s0) = true.
-   Since the repairs 091ae163 and 0aa534ea no counterexample is known (the check explores millions of
-   histories), but the inductive invariant for histories of any length from any valid tree is not proved:
-   what is proved in general is the search (the binsearch lemmas), that resetLimits touches only /Limits and that
-   split preserves the content; missing are the /Limits-exactness invariant across insert/remove and the
-   iterator-position lemmas.
+   The full statement is now PROVED by induction for histories of any length (Struct/C18ProofsH.v:
+   nn_refines_map_lemma, nn_wf_preserved_lemma, over the zipper invariant of Struct/C18Inv*.v); the bounded
+   exhaustive version below is kept as a regression theorem (it is checked by computation, independently
+   of the inductive argument).
    Here: for every split threshold 3, 4, 5, every starting tree of `starts` (up to four levels), and EVERY
    history of at most three helper calls over the 31-call alphabet on keys 1..5: each result (including where
    the iterator stands after insert / insertAfter / remove, and ++/-- on any end() iterator) equals the sorted
